@@ -311,9 +311,14 @@ impl<'input> GrmtoolsSectionParser<'input> {
                                     end_pos,
                                 ));
                             }
-                            if let Ok((val, k)) = self.parse_setting(j) {
-                                vals.push(val);
-                                j = self.parse_ws(k);
+                            match self.parse_setting(j) {
+                                Ok((val, k)) => {
+                                    vals.push(val);
+                                    j = self.parse_ws(k);
+                                }
+                                // Without a value, only a separator lets us make progress.
+                                Err(e) if self.lookahead_is(",", j).is_none() => return Err(e),
+                                Err(_) => (),
                             }
                             if let Some(k) = self.lookahead_is(",", j) {
                                 j = k
